@@ -6,7 +6,7 @@ from . import c07, core
 from .driver import drive, write_replay
 from .runner import run_isolated
 
-RUNS = {'C07': {'quick': 1200, 'thorough': 60000},
+RUNS = {'C07': {'quick': 900, 'thorough': 60000},
         'C19': {'quick': 1600, 'thorough': 60000}}
 
 RULE = {
